@@ -684,6 +684,44 @@ func genC09(rng *rand.Rand, tier string) (cases []string) {
 		c.ops = append(c.ops, genC09Ops(rng, rng.IntN(4), 0, true)...)
 		cases = append(cases, c.String())
 	}
+	// bursts: several hundred live entries (unbounded, and bounded only far above the burst), then
+	// deleted down to a handful, with Gets of survivors and of deleted keys on the way, in both
+	// eviction modes — maintenance that only starts at a size threshold (rehash, shrink, compact)
+	// has to keep every clause
+	bursts := []int{300}
+	if v, ok := dictInt(rng, 17, 2000); ok && dictNew() {
+		bursts = append(bursts, int(v)+40)
+	}
+	if tier == "thorough" {
+		bursts = append(bursts, 65, 129, 257, 513, 1025)
+	}
+	for _, nb := range bursts {
+		for _, lru := range []bool{false, true} {
+			for _, bounded := range []bool{false, true} {
+				c := c09Case{lru: lru, cb: lru && bounded}
+				if bounded {
+					c.maxCount, c.maxSize = uint(nb+10), uint(16*nb)
+				}
+				key := func(i int) []byte { return []byte(fmt.Sprintf("k%04d", i)) }
+				for i := 0; i < nb; i++ {
+					c.ops = append(c.ops, c09Op{kind: 'S', k: key(i), v: []byte(fmt.Sprintf("v%d", i%7))})
+				}
+				c.ops = append(c.ops, c09Op{kind: 'T'})
+				for i := 0; i < nb-3; i++ {
+					d := (i*7 + 3) % nb // a permutation when nb is not a multiple of 7
+					if nb%7 == 0 {
+						d = i
+					}
+					c.ops = append(c.ops, c09Op{kind: 'D', k: key(d)})
+					if i%16 == 15 || i >= nb-8 {
+						c.ops = append(c.ops, c09Op{kind: 'G', k: key(d)}, c09Op{kind: 'G', k: key((d + 1) % nb)}, c09Op{kind: 'T'})
+					}
+				}
+				c.ops = append(c.ops, c09Op{kind: 'S', k: key(1), v: []byte("again")}, c09Op{kind: 'G', k: key(1)}, c09Op{kind: 'T'})
+				cases = append(cases, c.String())
+			}
+		}
+	}
 	// bounded-exhaustive: every script of at most exLen calls over a small alphabet
 	alpha := []c09Op{
 		{kind: 'S', k: []byte("a"), v: []byte("x")},
